@@ -35,7 +35,7 @@ ASSUMPTIONS = [
     "R-src dis.findlinestarts of CPython 2.7/3.6/3.7/3.8/3.9; R-models lines310/locations311 validated on real "
     "interpreters at run time",
 ]
-FUNCS = ["xdis.cross_dis.findlinestarts", "xdis.codetype.code310.Code310.co_lines",
+FUNCS = ["xdis.cross_dis.findlinestarts", "xdis.cross_dis.findlinestarts_unsigned", "xdis.opcodes.base.init_opdata (findlinestarts binding)", "xdis.codetype.code310.Code310.co_lines",
          "xdis.codetype.code311.Code311.co_lines", "xdis.codetype.code311.parse_linetable",
          "xdis.bytecode.offset2line", "xdis.bytecode.Bytecode.__init__", "xdis.bytecode.Bytecode.__iter__",
          "xdis.bytecode.get_logical_instruction_at_offset (starts_line)"]
@@ -93,7 +93,9 @@ def lnotab_ob(vt, oracle, signed, n, region_kind, tier):
         lnotab = mkbytes(tbl)
         code = make_portable(vt, co_lnotab=lnotab, co_firstlineno=kw["fl"], co_code=b"")
         code.co_code = LenOnly(kw["clen"])
-        got = list(X.findlinestarts(code))
+        # through the opcode table of the bytecode's version: the only path that knows the signedness of the format
+        opc = opc_tables()["opcode_%d%d" % vt]
+        got = list(opc.findlinestarts(code))
         ref_code = SymCode(co_lnotab=lnotab, co_firstlineno=kw["fl"], co_code=LenOnly(kw["clen"]))
         if oracle == "27":
             ref = list(oracles.load_dis27()["findlinestarts"](ref_code))
